@@ -20,7 +20,10 @@ RULE = ("Each case runs a real Doist(real=True).do() on a simulated wall clock (
         "Distinct: digest of the drawn clock script.")
 COMPONENTS = dict(real=["hio.base.doing.Doist.do (real branch)", "hio.help.timing.MonoTimer/Timer"],
                   stub=["wall clock and sleep (SimClock)"])
-ASSUMPTIONS = ["forward wall-clock jumps are excluded by the statement", "the doer's own work is the only thing that consumes time inside a cycle"]
+ASSUMPTIONS = ["forward wall-clock jumps are excluded by the statement", "the doer's own work is the only thing that consumes time inside a cycle",
+               "the simulated wall clock reads about 1e3 s, where doubles are spaced 1e-13 apart, far below the oracle's tolerance (1e-9 per cycle); at "
+               "epoch magnitude (1.7e9 s, spacing 2.4e-7) the period MonoTimer re-derives from stop - start at every restart is quantised to that "
+               "spacing and cycles may start up to one spacing per cycle early (DESIGN 6.4): float resolution of the clock, not checked"]
 PROBES = ["late_cycle", "catch_up_after_late_cycle", "backward_step_before_run", "backward_step_in_recur", "backward_step_in_sleep",
           "stall_in_sleep", "sleep_overshoot", "tock_changed_before_run"]
 BOUNDS = dict(quick=dict(cycles=12), thorough=dict(cycles=40))
@@ -34,9 +37,9 @@ class _Stuck(BaseException):
 
 def run_case(tape, tier):
     res = Result()
-    tock_c = tape.pick("tock_c", [0.25, 0.1, 1.0, 0.03125])
+    tock_c = tape.pick("tock_c", [0.25, 0.1, 1.0, 0.03125, 1.0 / 3.0, 1.0 / 128.0])
     change = tape.flag("change_tock", 1, 4)
-    tock_run = tape.pick("tock_run", [1.0, 0.5, 0.05, 0.25, 2.0]) if change else tock_c
+    tock_run = tape.pick("tock_run", [1.0, 0.5, 0.05, 0.25, 2.0, 2.0 / 3.0, 3.0 / 256.0]) if change else tock_c
     if change and tock_run == tock_c:
         change = False
     gap = tape.pick("gap", [0.0, 0.3, 5.0])
